@@ -54,7 +54,12 @@ pub fn run(seed: u64, depth: usize, count: usize, len: usize, out: &mut Vec<Valu
     for sc in 0..count {
         let dir = std::env::temp_dir().join(format!("zk-pmnodes-{}-{}-{}", std::process::id(), depth, sc));
         let _ = std::fs::remove_dir_all(&dir);
-        let cfg = || zerokit_utils::Config::new().path(&dir);
+        // storage configurations in rotation: default, LowSpace with a tiny cache and a 1 ms flush period, small cache
+        let cfg = || match sc % 3 {
+            1 => zerokit_utils::Config::new().path(&dir).mode(zerokit_utils::Mode::LowSpace).cache_capacity(10_000).flush_every_ms(Some(1)),
+            2 => zerokit_utils::Config::new().path(&dir).cache_capacity(100_000),
+            _ => zerokit_utils::Config::new().path(&dir),
+        };
         let mut slot: Option<T> = match T::new(depth, cfg()) {
             Ok(t) => Some(t),
             Err(e) => {
